@@ -104,7 +104,10 @@ def cmd_run(sid: str, checks: list[str], tier: str = "quick") -> dict:
     res["tier"] = tier
     caught = [c for c, v in res["checks"].items() if v["rc"] == 1]
     res["caught_by"] = caught
+    res["harness_errors"] = [c for c, v in res["checks"].items() if v["rc"] not in (0, 1)]
     print(json.dumps(res, indent=1))
+    if res["harness_errors"]:
+        print(f"!!! HARNESS-ERROR in {res['harness_errors']} while running seed {sid}")
     with open(os.path.join(d, "result.json"), "w") as f:
         json.dump(res, f, indent=1)
         f.write("\n")
